@@ -320,6 +320,15 @@ def signal_scenario(ctx, seed):
         sc["stmts"].append(st)
     sc["stmts"].append(St("link", ["prog"], ins=[s["outs"][0] for s in sc["stmts"]]))
     sig = rng.choice((signal.SIGINT, signal.SIGTERM, signal.SIGHUP, signal.SIGKILL, signal.SIGINT))
+    if sig in (signal.SIGTERM, signal.SIGHUP) and rng.random() < 0.5:
+        # the work is done by a background job of the command's shell ('tool & wait', 'a & b & wait'): a non-interactive shell
+        # starts its background jobs with SIGINT ignored, so these are stopped by the SIGTERM / SIGHUP ninja got and passes on to
+        # the command's process group - not by a SIGINT.  (Not used when ninja itself gets SIGINT: then nothing stops such a job.)
+        for s_ in sc["stmts"]:
+            if s_["id"] != "link" and not s_.get("stubborn") and rng.random() < 0.6:
+                s_["shell_suffix"] = " & wait"
+                s_.pop("shell_prefix", None)
+                s_["background_job"] = True
     # Ctrl-C in a terminal: the signal goes to the whole foreground process group - ninja and the console-pool command, which
     # shares ninja's group, get it at the same instant, and ninja learns of the interrupt and of that command's death in one
     # wake-up (made certain here by stopping ninja while the signal is delivered)
